@@ -37,6 +37,7 @@ macro_rules! big {
                 if v >= RACE_BASE {
                     race_rendezvous();
                 }
+                slow_loader();
                 Ok(<$name as Words>::make(v))
             }
         }
@@ -65,6 +66,85 @@ fn race_rendezvous() {
         } else {
             std::hint::spin_loop();
         }
+    }
+}
+
+/// Spins for about that many microseconds in every load (0 = off): widens the window in which a reload
+/// triggered by a stale request can be observed.
+static SLOW_LOADER_US: AtomicU64 = AtomicU64::new(0);
+fn slow_loader() {
+    let us = SLOW_LOADER_US.load(SeqCst);
+    if us > 0 {
+        let t = std::time::Instant::now();
+        while (t.elapsed().as_micros() as u64) < us {
+            std::hint::spin_loop();
+        }
+    }
+}
+
+/// Several threads call hot_reload (each call under the read side of a gate) while a writer keeps notifying new
+/// versions; an observer takes the write side of the gate - no thread is inside hot_reload then - and the value
+/// and the reload id must stay fixed for as long as it holds it. Returns the number of windows observed.
+pub fn gated_callers(callers: u8, rounds: u16, slow_us: u64) -> Result<u64, (String, String)> {
+    let src = MemSource::new(true);
+    src.tree().put("big", "w", b"0".to_vec(), Variant::Buffer);
+    let cache = AssetCache::with_source(src.handle());
+    let h = cache.load::<W8>("big").expect("load big");
+    let gate = std::sync::RwLock::new(());
+    let stop = AtomicBool::new(false);
+    let problem: Mutex<Option<(String, String)>> = Mutex::new(None);
+    let windows = AtomicU64::new(0);
+    SLOW_LOADER_US.store(slow_us, SeqCst);
+    std::thread::scope(|s| {
+        for _ in 0..callers {
+            s.spawn(|| {
+                while !stop.load(SeqCst) {
+                    let _inside = gate.read().unwrap();
+                    cache.hot_reload();
+                }
+            });
+        }
+        // notifications keep coming, whoever is inside
+        s.spawn(|| {
+            let mut i = 0u64;
+            while !stop.load(SeqCst) {
+                i += 1;
+                src.tree().put("big", "w", i.to_string().into_bytes(), Variant::Buffer);
+                src.send(&OwnedEntry::File("big".into(), "w".into()));
+                for _ in 0..200 {
+                    std::hint::spin_loop();
+                }
+            }
+        });
+        for _ in 0..rounds {
+            {
+                let _alone = gate.write().unwrap();
+                let (v1, id1) = (validate(h.read().words()), h.last_reload_id());
+                let t = std::time::Instant::now();
+                while (t.elapsed().as_micros() as u64) < slow_us * 3 + 100 {
+                    std::hint::spin_loop();
+                }
+                let (v2, id2) = (validate(h.read().words()), h.last_reload_id());
+                windows.fetch_add(1, SeqCst);
+                if v1 != v2 || id1 != id2 {
+                    *problem.lock().unwrap() = Some((
+                        "changed-outside-hot-reload".into(),
+                        format!("{callers} threads call hot_reload under the read side of a gate; while the observer held the write side (no thread inside hot_reload) the value/id changed from ({v1:?}, {id1:?}) to ({v2:?}, {id2:?}): a request was served after its caller had been released"),
+                    ));
+                    break;
+                }
+            }
+            // let the callers in again
+            for _ in 0..20 {
+                std::thread::yield_now();
+            }
+        }
+        stop.store(true, SeqCst);
+    });
+    SLOW_LOADER_US.store(0, SeqCst);
+    match problem.into_inner().unwrap() {
+        Some(p) => Err(p),
+        None => Ok(windows.load(SeqCst)),
     }
 }
 
@@ -139,6 +219,9 @@ pub struct Case {
     /// reloaded continuously, i.e. the read runs on the other cache's reloader thread
     #[serde(default)]
     cross: u8,
+    /// afterwards: (callers, rounds, loader delay in us) of the gated-callers scenario
+    #[serde(default)]
+    gated: Option<(u8, u16, u16)>,
 }
 
 struct Shared {
@@ -444,6 +527,7 @@ impl Prop for C07 {
         "cases = (value size 64 B / 4 KiB / 64 KiB of self-checking words, 1..7 reader threads of styles {short read, guard held across k yields, mapped guard, try_map guard, copied(), polling watcher, in-flight bracket sampler}, \
          30..2000 reloads driven by one writer thread: write version i, notify, hot_reload until applied; in a third of the cases 2..5 threads first race for the first load of one asset (rendezvous inside the loader, each reading different bytes) before any hot_reload call; \
          in a third of the cases a compound of a SECOND hot-reloaded cache reads the handle with a guard held over 1..4 yields and is reloaded continuously, so that this read runs on the other cache's reloader thread while the first cache's reloader rewrites the value). Oracle: \
+         in a fifth of the cases 6..14 threads then call hot_reload under the read side of a gate while notifications keep coming and the loader takes 100..700 us: whenever an observer holds the write side (no thread inside hot_reload) value and id must not move; \
          after the first-load race every racer's (value, reload id) equals what the handle reads afterwards and the id is ReloadId::NEVER; every read sees all words equal with a valid checksum; value and reload id are constant while a guard lives; \
          versions never go back; after the k-th true from ReloadWatcher::reloaded the value read is at least version k; two samples taken while started == finished hot_reload counters are equal; when hot_reload returns with the id advanced the writer reads the new version. \
          non-trivial = some reader saw at least two different versions (its reads overlapped reloads); distinct = different canonical JSON"
@@ -478,8 +562,15 @@ impl Prop for C07 {
             2 => Just(Style::Watcher),
             2 => Just(Style::Bracket),
         ];
-        (0u8..3, prop::collection::vec(style, 1..7), 30u16..max, prop_oneof![2 => Just(0u8), 1 => 2u8..6], prop_oneof![2 => Just(0u8), 1 => 1u8..5])
-            .prop_map(|(size, readers, reloads, first_load_race, cross)| to_case(&Case { size, readers, reloads, first_load_race, cross }))
+        (
+            0u8..3,
+            prop::collection::vec(style, 1..7),
+            30u16..max,
+            prop_oneof![2 => Just(0u8), 1 => 2u8..6],
+            prop_oneof![2 => Just(0u8), 1 => 1u8..5],
+            prop_oneof![4 => Just(None), 1 => (6u8..15, 60u16..200, 100u16..700).prop_map(Some)],
+        )
+            .prop_map(|(size, readers, reloads, first_load_race, cross, gated)| to_case(&Case { size, readers, reloads, first_load_race, cross, gated }))
             .boxed()
     }
 
@@ -490,6 +581,13 @@ impl Prop for C07 {
             0 => run_sized::<W8>(&c, &mut out),
             1 => run_sized::<W512>(&c, &mut out),
             _ => run_sized::<W8192>(&c, &mut out),
+        }
+        if let (Some((callers, rounds, us)), false) = (c.gated, out.failed()) {
+            match gated_callers(callers, rounds, us as u64) {
+                Ok(n) if n > 0 => out.label("gated-callers"),
+                Ok(_) => {}
+                Err((sig, what)) => out.fail(sig, what),
+            }
         }
         out.label(format!("size:{}", ["64B", "4KiB", "64KiB"][c.size.min(2) as usize]));
         for s in &c.readers {
@@ -507,14 +605,14 @@ impl Prop for C07 {
     }
 
     fn required_labels(&self) -> Vec<&'static str> {
-        vec!["read-overlapped-reloads", "held-guard", "copied", "watcher", "bracket", "first-load-race", "read-on-other-cache-reloader-thread"]
+        vec!["read-overlapped-reloads", "held-guard", "copied", "watcher", "bracket", "first-load-race", "read-on-other-cache-reloader-thread", "gated-callers"]
     }
 }
 
 /// A polling-reader race reused by C06: `ReloadWatcher::reloaded(); read()` against a stream of reloads,
 /// with a guard-holding reader widening the window between publication and installation.
 pub fn watcher_race(reloads: u16, size: u8) -> Option<(String, String)> {
-    let c = Case { size, readers: vec![Style::Watcher, Style::Held { yields: 3 }, Style::Watcher, Style::Held { yields: 1 }], reloads, first_load_race: 0, cross: 0 };
+    let c = Case { size, readers: vec![Style::Watcher, Style::Held { yields: 3 }, Style::Watcher, Style::Held { yields: 1 }], reloads, first_load_race: 0, cross: 0, gated: None };
     let mut out = Outcome::new();
     match size {
         0 => run_sized::<W8>(&c, &mut out),
